@@ -1,4 +1,6 @@
 #include "gen.hh"
+#include <functional>
+#include <map>
 #include "oracle.hh"
 #include <algorithm>
 #include <set>
@@ -288,6 +290,26 @@ static int pick_nprocs(Rng &r, int n) {
     return (int)r.range(9, 12);
 }
 
+// ---- every postordered forest on n nodes (children before parents, every subtree a contiguous range ending at its root)
+static void forests_rec(int lo, int hi, int par, std::vector<int> &cur, std::vector<std::vector<int>> &out, const std::function<void()> &cont);
+static void forests_rec(int lo, int hi, int par, std::vector<int> &cur, std::vector<std::vector<int>> &out, const std::function<void()> &cont) {
+    (void)out;
+    if (lo >= hi) { cont(); return; }
+    for (int k = 1; k <= hi - lo; ++k) {          // first tree has k nodes, root lo+k-1
+        int root = lo + k - 1;
+        cur[root] = par;
+        forests_rec(lo, root, root, cur, out, [&]() { forests_rec(root + 1, hi, par, cur, out, cont); });
+    }
+}
+static const std::vector<std::vector<int>> &all_forests(int n) {
+    static std::map<int, std::vector<std::vector<int>>> cache;
+    auto it = cache.find(n);
+    if (it != cache.end()) return it->second;
+    std::vector<std::vector<int>> out; std::vector<int> cur(n, n);
+    forests_rec(0, n, n, cur, out, [&]() { out.push_back(cur); });
+    return cache[n] = out;
+}
+
 Case gen_case(const std::string &profile, uint64_t seed, const GenOpts &go) {
     Case c; c.profile = profile; c.seed = seed;
     uint64_t cfg_seed = sim::derive(0x5e1f00dULL + std::hash<std::string>()(profile) % 1000003ULL, seed / (uint64_t)go.S);
@@ -352,6 +374,52 @@ Case gen_case(const std::string &profile, uint64_t seed, const GenOpts &go) {
             if (rs.chance(0.5)) op.sched.delay_start = (int)rs.range(1, 200);
             if (rs.chance(0.08)) op.faults.thread_create_fail = (int)rs.below((uint64_t)op.x.nprocs);
         }
+        c.ops.push_back(op);
+        return c;
+    }
+    if (profile == "forest") {
+        // enumerating profile: configuration (seed div S) walks through every postordered elimination forest with 1..nmax columns
+        // x panel size 1..3 x relaxation 1..3 x 2..3 threads; the matrix has exactly that column elimination tree
+        int nmax = go.tier ? 8 : 6;
+        static std::vector<std::pair<int, int>> table; static int table_nmax = 0;   // (n, forest index)
+        if (table_nmax != nmax) { table.clear(); for (int n = 1; n <= nmax; ++n) for (int f = 0; f < (int)all_forests(n).size(); ++f) table.push_back({n, f}); table_nmax = nmax; }
+        uint64_t cfg = seed / (uint64_t)go.S;
+        int P = 2 + (int)(cfg % 2); cfg /= 2;
+        int w = 1 + (int)(cfg % 3); cfg /= 3;
+        int relax = 1 + (int)(cfg % 3); cfg /= 3;
+        auto nf = table[cfg % table.size()];
+        int n = nf.first; const std::vector<int> &par = all_forests(n)[nf.second];
+        c.prec = go.force_prec >= 0 ? go.force_prec : (int)rc.below(4);
+        Pattern Pt; Pt.n = n; Pt.col.assign(n, {}); Pt.transversal.assign(n, 0);
+        double extra = rc.chance(0.5) ? 0.0 : rc.unit() * 0.7;
+        for (int j = 0; j < n; ++j) {
+            Pt.col[j].insert(j); Pt.transversal[j] = j;
+            if (par[j] < n) Pt.col[par[j]].insert(j);                       // row j: columns j and parent(j)
+            for (int a = par[j]; a < n; a = par[a]) if (a != par[j] && rc.chance(extra)) Pt.col[a].insert(j);   // further ancestors keep the tree
+        }
+        c.M = pattern_to_mat(Pt); c.family = "forest_n" + std::to_string(n); c.transversal = Pt.transversal;
+        c.tags["forest_id"] = nf.second; c.tags["forest_n"] = n;
+        for (int j = 0; j < n; ++j) c.tags["forest_parent_" + std::to_string(j)] = par[j];
+        int vc = (int)rc.below(V_COUNT); c.valclass = valclass_names[vc]; c.tags["valclass"] = vc;
+        c.values.push_back(gen_values(rc, c.M, vc, c.prec, Pt.transversal)); c.M.val = c.values[0];
+        c.stype_nr = 0; c.nrhs = 1; c.ldb = n; std::vector<cld> b((size_t)n, cld(1, 0)); c.rhs.push_back(b);
+        c.colperm = 0;
+        OpSpec op;
+        gen_tunables(rc, op.ienv, n);
+        op.ienv[1] = w; op.ienv[2] = relax; op.ienv[3] = std::max<long>(relax, rc.range(1, 6));
+        op.dyn_snode = false; op.x.nprocs = P; op.x.panel_size = w; op.x.relax = relax;
+        op.kind = rc.chance(0.8) ? OP_ROUTE : OP_GSSV;
+        static const double us[] = {0.0, 0.1, 1.0, 1.0};
+        op.x.u = op.kind == OP_GSSV ? 1.0 : us[rc.below(4)];
+        op.x.fact = 0; op.x.trans = 0;
+        gen_sched(rs, op.sched, P, baseline, "pipe");
+        if (!baseline && rs.chance(0.3)) {
+            op.sched.strategy = sim::ST_STALL;
+            static const int kinds[] = {4, 4, 24, 6, 27, 12};
+            op.sched.stall_kind = kinds[rs.below(6)]; op.sched.stall_k = (int)rs.range(5, 100); op.sched.stall_nth = (int)rs.range(1, 8);
+            op.sched.sticky_q = 0.5;
+        }
+        if (!baseline && rs.chance(0.3)) op.sched.delay_start = (int)rs.range(1, 60);
         c.ops.push_back(op);
         return c;
     }
